@@ -59,6 +59,19 @@ def families(tier, seed):
         out.append(dict(tag="G13-converging-edges-six-rows", features=dict(vec_flag=vec), kind="grid", model=mc, outputs=outs, vec=vec,
                         grid={"w13": [0.5, 2.5, -1.0, 1.0, 0.2, -2.0], "tau3": [1.0, 2.0, 4.0, 0.5, 3.0, 1.5]},
                         param_map={"w13": {"edges": [("p1/op/r", "p3/op/r_in")], "vars": ["weight"]}, "tau3": {"nodes": ["p3"], "vars": ["op/tau"]}}))
+    # twelve rows: a unidirectional edge with SI-scale weights (nano-units; the source is large), and a 2-D extrinsic input with one column
+    # per grid row (the sub-circuits are numbered 0..11: their textual order differs from their numeric one)
+    mu = gen.model([li], {"p1": dict(ops=["op"], over={"op/r": 4.0e8, "op/tau": 50.0, "op/k": 0.0}), "p2": dict(ops=["op"], over={"op/tau": 3.0})},
+                   [E("p1/op/r", "p2/op/r_in", 1.0e-9)])
+    for vec in (True, False):
+        out.append(dict(tag="G15-twelve-rows-tiny-edge-weights", features=dict(vec_flag=vec, rows=12), kind="grid", model=mu, outputs=outs, vec=vec,
+                        grid={"w12": [round(0.45e-9 * (k_ + 1), 12) for k_ in range(12)]},
+                        param_map={"w12": {"edges": [("p1/op/r", "p2/op/r_in")], "vars": ["weight"]}}))
+        if not vec:
+            continue          # one input column per addressed node is supported for vectorised circuits only (see C08)
+        sig = [[round(0.1 * ((7 * i + 3 * j) % 11) - 0.5, 3) for j in range(12)] for i in range(10)]
+        out.append(dict(tag="G16-twelve-rows-one-input-column-per-row", features=dict(vec_flag=vec, rows=12), kind="grid", model=m, outputs=outs, vec=vec,
+                        grid={"tau1": [1.0 + 0.25 * k_ for k_ in range(12)]}, param_map={"tau1": node_map["tau1"]}, inputs={"p1/op/r_in": sig}))
     # the circuit handed over as the PATH of a YAML definition (grid_search / adapt_circuit load it themselves, once per row)
     for vec in (True, False):
         out.append(dict(tag="G10-circuit-as-yaml-path", features=dict(vec_flag=vec, as_path=True), kind="grid", model=m, outputs=outs, vec=vec,
